@@ -523,13 +523,15 @@ func (ndb *nodeDB) deleteVersion(version int64, cache *rootkeyCache) error {
 		if err != nil {
 			return err
 		}
-		// ensure that the given version is not included in the root search
-		if err := ndb.deleteFromPruning(ndb.nodeKey(literalRootKey)); err != nil {
-			return err
-		}
-		// instead, the root should be reformatted to (version, 0)
+		// the root should be reformatted to (version, 0). It is written before the
+		// (version, 1) key is deleted: the batch may be flushed between the two
+		// operations, and the node must stay readable under one of its keys.
 		root.nodeKey.nonce = 0
 		if err := ndb.saveNodeFromPruning(root); err != nil {
+			return err
+		}
+		// ensure that the given version is not included in the root search
+		if err := ndb.deleteFromPruning(ndb.nodeKey(literalRootKey)); err != nil {
 			return err
 		}
 	}
